@@ -315,7 +315,9 @@ class Check:
                         f.write(raw[8:8 + n])
         if case is None:
             raise RuntimeError("harness %s failed (rc=%s) without a case file:\n%s" % (label, rc, r["output"][-3000:]))
-        if os.path.basename(case) == "crash.case" and u.get("kind", "gen") == "gen":
+        if os.path.basename(case) == "crash.case" and u.get("kind", "gen") == "gen" and not HARNESSES[u["harness"]].get("threaded") \
+                and not getattr(self, "crash_shrunk", False):
+            self.crash_shrunk = True   # one minimised crash per run is enough; further shards keep their unshrunk case
             # the process died (sanitizer abort, signal): run the same generation again with every case isolated in a
             # forked child, so that the crash becomes an ordinary failure that rapidcheck shrinks
             out2 = r["out"] + ".shrink"
